@@ -177,6 +177,16 @@ func famCrash(r *Rand, base, pool, at, at2 int) *seqScenario {
 	}
 	b.cmd(seqCmd{Op: "start", Inst: 0})
 	b.cmd(seqCmd{Op: "run", Inst: 0})
+	if r.Chance(35) {
+		// the clock stalls or steps back to around the time of the crashed round's tree head
+		b.cmd(seqCmd{Op: "clock", V: -int64(3 + r.Intn(4))})
+		b.cmd(seqCmd{Op: "round", Inst: 0})
+		b.cmd(seqCmd{Op: "run", Inst: 0})
+		b.cmd(seqCmd{Op: "crash", Inst: 0})
+		b.cmd(seqCmd{Op: "clock", V: 20})
+		b.cmd(seqCmd{Op: "start", Inst: 0})
+		b.cmd(seqCmd{Op: "run", Inst: 0})
+	}
 	// resubmit what may have been lost, plus something new
 	for _, e := range ids {
 		if r.Chance(50) {
@@ -432,7 +442,7 @@ func genScenarios(o *Opts, r *Rand) []*seqScenario {
 	fam := func(names ...string) bool {
 		want := map[string][]string{
 			"C01": {"basic", "fault", "clock", "crash"},
-			"C02": {"basic", "fault", "dup", "crash"},
+			"C02": {"basic", "fault", "dup", "crash", "pool"},
 			"C03": {"crash", "fault"},
 			"C04": {"basic", "fault", "crash"},
 			"C06": {"multi", "startup"},
